@@ -18,6 +18,16 @@
 (* PayloadExact: the bytes handed to PDFStream are exactly the payload.     *)
 (* ResumeOK: the parser is left at the `endstream` keyword, so that the     *)
 (* tokenizer model of specs/lex reads `endstream endobj` from there.        *)
+(* Both are promised for a conformant /Length only.                         *)
+(*                                                                          *)
+(* Extended coverage (not promised by C03, stated here as the code          *)
+(* implements it - DeliveredAsStated): /Length too short or too long by     *)
+(* delta bytes, missing, or an indirect reference to an object that does    *)
+(* not exist (both read as 0), and the parser's fallback mode (set by       *)
+(* PDFDocument after a damaged cross-reference table), in which /Length is  *)
+(* not looked at and everything up to the first `endstream` is the data.    *)
+(* The file continues  ... z LF endstream LF  after `endobj`, standing for  *)
+(* the next stream object, so that an over-long scan finds something.       *)
 (***************************************************************************)
 EXTENDS Integers, Sequences, FiniteSets, TLC, Json
 
@@ -28,7 +38,9 @@ CONSTANTS Syms,        \* payload symbols, a subset of {"x", "CR", "LF", "NUL", 
           EolAfter,    \* subset of {"LF", "CRLF"}
           EolBefore,   \* subset of {"", "LF", "CR", "CRLF"}
           BufSizes,    \* read-buffer sizes (PSBaseParser.BUFSIZ)
-          LenForms     \* subset of {"direct", "indirect"}
+          LenKinds,    \* subset of {"direct", "indirect", "missing", "indirect-missing"}
+          Deltas,      \* /Length = payload length + delta (0: exact) for the direct and indirect kinds
+          Fallbacks    \* subset of BOOLEAN: PDFParser.fallback
 
 KwStream    == <<115, 116, 114, 101, 97, 109>>
 KwEndstream == <<101, 110, 100>> \o KwStream
@@ -39,44 +51,58 @@ EolBytes(e) == CASE e = "LF" -> <<10>> [] e = "CR" -> <<13>> [] e = "CRLF" -> <<
 RECURSIVE Expand(_)
 Expand(ss) == IF ss = <<>> THEN <<>> ELSE SymBytes(ss[1]) \o Expand(Tail(ss))
 
-VARIABLES pay, ea, eb, B, lf,                 \* the writer's choices
+VARIABLES pay, ea, eb, B, lk, delta, fb,      \* the writer's choices, and the parser's mode
           D,                                   \* the file
           fp, bufpos, buflen, charpos, stack,  \* parser fields
           pos, objlen, data,                   \* locals of do_keyword
           linepos, linelen, eol, ret,          \* locals of nextline, and where it returns to
           pc, resume
-vars == <<pay, ea, eb, B, lf, D, fp, bufpos, buflen, charpos, stack, pos, objlen, data,
+vars == <<pay, ea, eb, B, lk, delta, fb, D, fp, bufpos, buflen, charpos, stack, pos, objlen, data,
           linepos, linelen, eol, ret, pc, resume>>
 
 Payload == Expand(pay)
 
 Init == /\ pay \in UNION {[1..m -> Syms] : m \in 0..MaxLen}
-        /\ ea \in EolAfter /\ eb \in EolBefore /\ B \in BufSizes /\ lf \in LenForms
+        /\ ea \in EolAfter /\ eb \in EolBefore /\ B \in BufSizes
+        /\ lk \in LenKinds /\ delta \in Deltas /\ fb \in Fallbacks
+        /\ (lk \in {"missing", "indirect-missing"} \/ fb) => delta = 0      \* (the value is not looked at)
+        /\ fb => lk = "direct"
+        /\ Len(Expand(pay)) + delta >= 0
         /\ D = KwStream \o EolBytes(ea) \o Expand(pay) \o EolBytes(eb) \o KwEndstream \o <<10>> \o KwEndobj \o <<10>>
+               \o <<122, 10>> \o KwEndstream \o <<10>>
         \* the tokenizer has just delivered the keyword found at offset 0; the dictionary is on the stack
         /\ fp = 0 /\ bufpos = 0 /\ buflen = 0 /\ charpos = 0 /\ stack = <<"dict">>
         /\ pos = 0 /\ objlen = 0 /\ data = <<>>
         /\ linepos = 0 /\ linelen = 0 /\ eol = FALSE /\ ret = "none"
         /\ pc = "kw" /\ resume = -1
 
-Choices == UNCHANGED <<pay, ea, eb, B, lf, D>>
+Choices == UNCHANGED <<pay, ea, eb, B, lk, delta, fb, D>>
 Min(a, b) == IF a < b THEN a ELSE b
 
 \* PSStackParser.seek(p): file position, empty buffer, tokenizer state and object stack reset
 SeekTo(p) == fp' = p /\ bufpos' = p /\ buflen' = 0 /\ charpos' = 0 /\ stack' = <<>>
 StartLine(r) == linepos' = bufpos' + charpos' /\ linelen' = 0 /\ eol' = FALSE /\ ret' = r /\ pc' = "nl"
 
-\* ((_, dic),) = self.pop(1);  objlen = int_value(dic["Length"])
+\* ((_, dic),) = self.pop(1);  objlen = 0;  if not self.fallback: objlen = int_value(dic["Length"])
+\* (a missing key leaves 0)
 AKeyword == /\ pc = "kw"
             /\ stack' = SubSeq(stack, 1, Len(stack) - 1)
-            /\ IF lf = "direct" THEN objlen' = Len(Payload) /\ pc' = "seek1" ELSE objlen' = objlen /\ pc' = "resolve"
+            /\ IF fb \/ lk = "missing" THEN objlen' = 0 /\ pc' = "seek1"
+               ELSE IF lk = "direct" THEN objlen' = Len(Payload) + delta /\ pc' = "seek1"
+               ELSE objlen' = objlen /\ pc' = "resolve"
             /\ Choices /\ UNCHANGED <<fp, bufpos, buflen, charpos, pos, data, linepos, linelen, eol, ret, resume>>
 
 \* int_value -> PDFObjRef.resolve -> PDFDocument.getobj: the same parser is sent to the object holding the
 \* length (anywhere else in the file: here, the end), parses it there, and is left there
-AResolveLength == /\ pc = "resolve"
-                  /\ SeekTo(Len(D)) /\ objlen' = Len(Payload) /\ pc' = "seek1"
+AResolveLength == /\ pc = "resolve" /\ lk = "indirect"
+                  /\ SeekTo(Len(D)) /\ objlen' = Len(Payload) + delta /\ pc' = "seek1"
                   /\ Choices /\ UNCHANGED <<pos, data, linepos, linelen, eol, ret, resume>>
+
+\* the referenced object is not in the cross-reference table: getobj raises PDFObjectNotFound before touching
+\* the parser, PDFObjRef.resolve answers None and int_value(None) is 0
+AResolveMissing == /\ pc = "resolve" /\ lk = "indirect-missing"
+                   /\ objlen' = 0 /\ pc' = "seek1"
+                   /\ Choices /\ UNCHANGED <<fp, bufpos, buflen, charpos, stack, pos, data, linepos, linelen, eol, ret, resume>>
 
 \* self.seek(pos);  (_, line) = self.nextline()
 ASeekKeyword == /\ pc = "seek1" /\ SeekTo(pos) /\ StartLine("line1")
@@ -121,14 +147,18 @@ AReadPayload == /\ pc = "line1"
 
 Line == SubSeq(D, linepos + 1, linepos + linelen)
 Hits == {i \in 0..(linelen - 9) : SubSeq(Line, i + 1, i + 9) = KwEndstream}
-\* if b"endstream" in line: objlen += line.index(b"endstream"); break   else: objlen += len(line)
+\* if b"endstream" in line: i = line.index(b"endstream"); objlen += i; [fallback: data += line[:i]]; break
+\* else: objlen += len(line); [fallback: data += line]
 AScanLine == /\ pc = "scan"
              /\ IF Hits = {}
                 THEN /\ objlen' = objlen + linelen
+                     /\ data' = IF fb THEN data \o Line ELSE data
                      /\ linepos' = bufpos + charpos /\ linelen' = 0 /\ eol' = FALSE /\ pc' = "nl"
-                ELSE /\ objlen' = objlen + (CHOOSE i \in Hits : \A j \in Hits : i <= j)
+                ELSE LET i == CHOOSE i \in Hits : \A j \in Hits : i <= j IN
+                     /\ objlen' = objlen + i
+                     /\ data' = IF fb THEN data \o SubSeq(Line, 1, i) ELSE data
                      /\ pc' = "seek3" /\ UNCHANGED <<linepos, linelen, eol>>
-             /\ Choices /\ UNCHANGED <<fp, bufpos, buflen, charpos, stack, pos, data, ret, resume>>
+             /\ Choices /\ UNCHANGED <<fp, bufpos, buflen, charpos, stack, pos, ret, resume>>
 
 \* self.seek(pos + objlen); self.push((pos, PDFStream(dic, data)))
 APushStream == /\ pc = "seek3"
@@ -136,20 +166,47 @@ APushStream == /\ pc = "seek3"
                /\ stack' = <<"stream">> /\ resume' = pos + objlen /\ pc' = "done"
                /\ Choices /\ UNCHANGED <<pos, objlen, data, linepos, linelen, eol, ret>>
 
-Next == AKeyword \/ AResolveLength \/ ASeekKeyword \/ ANlFill \/ ANlSearch \/ ANlAfterCR
+Next == AKeyword \/ AResolveLength \/ AResolveMissing \/ ASeekKeyword \/ ANlFill \/ ANlSearch \/ ANlAfterCR
         \/ AReadPayload \/ AScanLine \/ APushStream
 Spec == Init /\ [][Next]_vars
 
 \* ======================================================================== C03
-PayloadExact == pc = "done" => (stack = <<"stream">> /\ data = Payload)
+\* what the property promises is promised for a /Length that is right
+Conformant == ~fb /\ lk \in {"direct", "indirect"} /\ delta = 0
+
+PayloadExact == (pc = "done" /\ Conformant) => (stack = <<"stream">> /\ data = Payload)
 
 \* the tokenizer of specs/lex, started where the parser was left, reads `endstream` then `endobj`
-ResumeOK == pc = "done" =>
+ResumeOK == (pc = "done" /\ Conformant) =>
    /\ resume \in 0..Len(D)
    /\ LET toks == Lex!RefOut(SubSeq(D, resume + 1, Len(D)), {}) IN
-        /\ Len(toks) = 2
+        /\ Len(toks) >= 2
         /\ toks[1].pos = 0 /\ toks[1].k = "kw" /\ toks[1].v = KwEndstream
         /\ toks[2].k = "kw" /\ toks[2].v = KwEndobj
+
+\* ------------------------------------------------------------------ extended coverage: what is delivered
+Start == Len(KwStream) + Len(EolBytes(ea))                   \* first byte after the keyword line
+EffLen == IF fb \/ lk \in {"missing", "indirect-missing"} THEN 0 ELSE Len(Payload) + delta
+\* first position >= from where the word `endstream` stands (the end of the file if nowhere)
+FirstES(from) == LET c == {q \in from..(Len(D) - 9) : SubSeq(D, q + 1, q + 9) = KwEndstream} IN
+                 IF c = {} THEN Len(D) ELSE CHOOSE q \in c : \A r \in c : q <= r
+\* normal mode: exactly /Length bytes, whatever they are; fallback mode: everything up to the first `endstream`
+Delivered == IF fb THEN SubSeq(D, Start + 1, FirstES(Start)) ELSE SubSeq(D, Start + 1, Start + EffLen)
+\* the parser goes on at the first `endstream` at or after the end of the /Length bytes
+ResumeAt  == FirstES(Start + EffLen)
+DeliveredAsStated == pc = "done" => (stack = <<"stream">> /\ data = Delivered /\ resume = ResumeAt)
+
+HasES == \E k \in 1..Len(pay) : pay[k] = "ES"
+\* fallback mode: the end-of-line before `endstream` is part of the data; a payload containing the word is cut there
+FallbackStatement == (pc = "done" /\ fb) =>
+   IF HasES THEN Len(data) < Len(Payload) /\ data = SubSeq(Payload, 1, Len(data))
+   ELSE data = Payload \o EolBytes(eb)
+\* no usable /Length outside fallback mode: the stream is delivered empty (and the parser still finds its end,
+\* or a word `endstream` inside the payload)
+MissingStatement == (pc = "done" /\ ~fb /\ lk \in {"missing", "indirect-missing"}) => data = <<>>
+\* a /Length that is too short truncates, one that is too long runs into `endstream`
+WrongLengthStatement == (pc = "done" /\ ~fb /\ lk \in {"direct", "indirect"}) =>
+   data = SubSeq(Payload \o EolBytes(eb) \o KwEndstream \o <<10>> \o KwEndobj \o <<10>>, 1, Len(Payload) + delta)
 
 \* the read buffer never reaches past the file, lines lie inside it
 BufferOK == /\ fp \in 0..Len(D) /\ bufpos + buflen <= Len(D) /\ charpos \in 0..buflen
@@ -159,6 +216,6 @@ BufferOK == /\ fp \in 0..Len(D) /\ bufpos + buflen <= Len(D) /\ charpos \in 0..b
 NlProgress == [][(pc = "nl" /\ pc' = "nl") => (bufpos' + charpos' > bufpos + charpos \/ (buflen = charpos /\ buflen' > 0))]_vars
 
 EmitTerminal ==
-  pc = "done" => PrintT("@@" \o ToJson([p |-> pay, ea |-> ea, eb |-> eb, b |-> B, lf |-> lf,
+  pc = "done" => PrintT("@@" \o ToJson([p |-> pay, ea |-> ea, eb |-> eb, b |-> B, lk |-> lk, dl |-> delta, fb |-> fb,
                                         data |-> data, resume |-> resume, st |-> stack]))
 =============================================================================
